@@ -11,3 +11,27 @@ class Sampler:
             cached = (dt, [start_time + k * dt for k in range(4)])
             self._grid_cache[kind] = cached
         return cached[1]
+
+
+class Store:
+    """Positive example for rule C20/A7b: put() rewrites the raw items the memo of
+    prepared items was computed from and leaves the memo alone."""
+
+    def __init__(self):
+        self._raw = []
+        self._scale = 2
+        self._prepared = {}
+
+    def put(self, index, item):
+        self._raw[index] = item
+
+    def rescale(self, scale):
+        self._scale = scale
+        self._prepared.clear()
+
+    def prepared(self, index):
+        if index in self._prepared:
+            return self._prepared[index]
+        value = self._raw[index] * self._scale
+        self._prepared[index] = value
+        return value
